@@ -1,6 +1,7 @@
 import CasbinV.Proto
 import CasbinV.Driver.Effect
 import CasbinV.Driver.Policy
+import CasbinV.Driver.Enforcer
 /-! Line-protocol driver: `driver <family>`; exactly one answer line per input line.
     Lines starting with `#` are echoed; `#reset` also resets a stateful family to its initial state.
     Unknown or malformed lines answer `bad-op` (never defaulted). -/
@@ -15,7 +16,8 @@ def stateless (f : List String → String) : Family := { σ := Unit, init := (),
 
 def families : List (String × Family) := [
   ("effect", stateless Casbin.Driver.Effect.handle),
-  ("policy", { σ := Casbin.Driver.Policy.St, init := {}, step := Casbin.Driver.Policy.step })
+  ("policy", { σ := Casbin.Driver.Policy.St, init := {}, step := Casbin.Driver.Policy.step }),
+  ("enf", { σ := Casbin.Driver.Enf.DSt, init := {}, step := Casbin.Driver.Enf.step })
 ]
 
 partial def runFamily (h out : IO.FS.Stream) (fam : Family) (s : fam.σ) : IO Unit := do
